@@ -17,7 +17,7 @@ theorem Env.le_set {e : Env} {n : String} (v : Tree) (h : e n = none) : e.le (e.
   simp [Env.set, this, hx]
 
 /-- The specification only ever extends the environment, and leaves names alone that do not
-occur in the pattern. -/
+occur in the pattern outside of a `Not` operand (`names`). -/
 def Ext (e e' : Env) (l : List String) : Prop := e.le e' ∧ ∀ n, n ∉ l → e' n = e n
 
 theorem Ext.refl (e : Env) (l : List String) : Ext e e l := ⟨Env.le_refl e, fun _ _ => rfl⟩
@@ -31,8 +31,30 @@ theorem Ext.weaken {a b : Env} {l1 l : List String} (h : Ext a b l1) (s : ∀ x,
   ⟨h.1, fun n hn => h.2 n (fun h' => hn (s n h'))⟩
 
 mutual
+theorem names_sub_allNames : ∀ (p : Pat) (x : String), x ∈ names p → x ∈ allNames p
+  | .binding n _ sub, x, h => by
+    simp only [names, allNames, List.mem_cons] at h ⊢
+    exact h.elim Or.inl (fun h' => Or.inr (names_sub_allNames sub x h'))
+  | .or alts, x, h => by simp only [names, allNames] at h ⊢; exact namesL_sub_allNamesL alts x h
+  | .not _, x, h => by simp [names] at h
+  | .list hd tl, x, h => by
+    simp only [names, allNames, List.mem_append] at h ⊢
+    exact h.elim (fun h' => Or.inl (names_sub_allNames hd x h')) (fun h' => Or.inr (names_sub_allNames tl x h'))
+  | .node _ _ fs, x, h => by simp only [names, allNames] at h ⊢; exact namesL_sub_allNamesL fs x h
+  | .gonil, x, h => by simp [names] at h
+  | .any, x, h => by simp [names] at h
+  | .nil, x, h => by simp [names] at h
+  | .str _, x, h => by simp [names] at h
+theorem namesL_sub_allNamesL : ∀ (ps : List Pat) (x : String), x ∈ namesL ps → x ∈ allNamesL ps
+  | [], x, h => by simp [namesL] at h
+  | p :: ps, x, h => by
+    simp only [namesL, allNamesL, List.mem_append] at h ⊢
+    exact h.elim (fun h' => Or.inl (names_sub_allNames p x h')) (fun h' => Or.inr (namesL_sub_allNamesL ps x h'))
+end
+
+mutual
 theorem spec_ext : ∀ (p : Pat) (t : Tree) (e : Env) (v : Tree) (e' : Env),
-    spec p t e = some (v, e') → Ext e e' (allNames p)
+    spec p t e = some (v, e') → Ext e e' (names p)
   | .gonil, t, e, v, e', h => by
     simp only [spec] at h; split at h <;> simp at h; rw [← h.2]; exact Ext.refl _ _
   | .any, t, e, v, e', h => by
@@ -55,7 +77,7 @@ theorem spec_ext : ∀ (p : Pat) (t : Tree) (e : Env) (v : Tree) (e' : Env),
         simp at h
         rw [← h.2]
         refine ⟨Env.le_set _ h0, fun n hn' => ?_⟩
-        have : n ≠ name := by intro e'; subst e'; exact hn' (by simp [allNames])
+        have : n ≠ name := by intro e'; subst e'; exact hn' (by simp [names])
         simp [Env.set, this]
     · simp only [hn] at h
       cases h0 : e name with
@@ -74,12 +96,12 @@ theorem spec_ext : ∀ (p : Pat) (t : Tree) (e : Env) (v : Tree) (e' : Env),
           · intro x w hx
             have : x ≠ name := by intro e'; subst e'; rw [h0] at hx; cases hx
             simp [Env.set, this, ih.1 x w hx]
-          · have h1 : n ≠ name := by intro e'; subst e'; exact hn' (by simp [allNames])
-            have h2 : n ∉ allNames sub := fun hm => hn' (by simp [allNames, hm])
+          · have h1 : n ≠ name := by intro e'; subst e'; exact hn' (by simp [names])
+            have h2 : n ∉ names sub := fun hm => hn' (by simp [names, hm])
             simp [Env.set, h1, ih.2 n h2]
   | .or alts, t, e, v, e', h => by
     simp only [spec] at h
-    simpa [allNames] using specOr_ext alts t e v e' h
+    simpa [names] using specOr_ext alts t e v e' h
   | .not sub, t, e, v, e', h => by
     simp only [spec] at h
     split at h <;> simp at h
@@ -110,7 +132,7 @@ theorem spec_ext : ∀ (p : Pat) (t : Tree) (e : Env) (v : Tree) (e' : Env),
               simp at h
               rw [← h.2]
               exact Ext.trans (spec_ext hd x e v1 e1 h1) (spec_ext tl _ e1 v2 e2 h2)
-                (fun y hy => by simp [allNames, hy]) (fun y hy => by simp [allNames, hy])
+                (fun y hy => by simp [names, hy]) (fun y hy => by simp [names, hy])
     · simp at h
   | .node kind fnames fields, t, e, v, e', h => by
     simp only [spec] at h
@@ -124,12 +146,12 @@ theorem spec_ext : ∀ (p : Pat) (t : Tree) (e : Env) (v : Tree) (e' : Env),
           simp only [hf] at h
           simp at h
           rw [← h.2]
-          simpa [allNames] using specFields_ext fnames fields tfn tfv e e1 hf
+          simpa [names] using specFields_ext fnames fields tfn tfv e e1 hf
       · simp [hk] at h
     · simp at h
 
 theorem specOr_ext : ∀ (alts : List Pat) (t : Tree) (e : Env) (v : Tree) (e' : Env),
-    specOr alts t e = some (v, e') → Ext e e' (allNamesL alts)
+    specOr alts t e = some (v, e') → Ext e e' (namesL alts)
   | [], t, e, v, e', h => by simp [specOr] at h
   | a :: as, t, e, v, e', h => by
     simp only [specOr] at h
@@ -138,13 +160,13 @@ theorem specOr_ext : ∀ (alts : List Pat) (t : Tree) (e : Env) (v : Tree) (e' :
       simp only [ha] at h
       simp at h
       subst h
-      exact (spec_ext a t e v e' ha).weaken (fun y hy => by simp [allNamesL, hy])
+      exact (spec_ext a t e v e' ha).weaken (fun y hy => by simp [namesL, hy])
     | none =>
       simp only [ha] at h
-      exact (specOr_ext as t e v e' h).weaken (fun y hy => by simp [allNamesL, hy])
+      exact (specOr_ext as t e v e' h).weaken (fun y hy => by simp [namesL, hy])
 
 theorem specFields_ext : ∀ (ns : List String) (ps : List Pat) (tfn : List String) (tfv : List Tree) (e e' : Env),
-    specFields ns ps tfn tfv e = some e' → Ext e e' (allNamesL ps)
+    specFields ns ps tfn tfv e = some e' → Ext e e' (namesL ps)
   | [], ps, tfn, tfv, e, e', h => by
     simp only [specFields] at h; simp at h; rw [← h]; exact Ext.refl _ _
   | _ :: _, [], tfn, tfv, e, e', h => by
@@ -161,7 +183,7 @@ theorem specFields_ext : ∀ (ns : List String) (ps : List Pat) (tfn : List Stri
         obtain ⟨v1, e1⟩ := r
         simp only [hp] at h
         exact Ext.trans (spec_ext p bv e v1 e1 hp) (specFields_ext ns ps tfn tfv e1 e' h)
-          (fun y hy => by simp [allNamesL, hy]) (fun y hy => by simp [allNamesL, hy])
+          (fun y hy => by simp [namesL, hy]) (fun y hy => by simp [namesL, hy])
 end
 
 
@@ -247,7 +269,8 @@ theorem spec_sat (σ : Env) : ∀ (p : Pat) (t : Tree) (e : Env) (v : Tree) (e' 
           obtain ⟨hv, he⟩ := h
           subst hv
           have hx := spec_ext sub t e v1 e1 hs
-          have h1 : e1 name = none := by rw [hx.2 name hnot]; exact h0
+          have h1 : e1 name = none := by
+            rw [hx.2 name (fun hm => hnot (names_sub_allNames sub name hm))]; exact h0
           have hle1 : e1.le σ := Env.le_trans (Env.le_set v1 h1) (by rw [he]; exact hle)
           exact ⟨spec_sat σ sub t e v1 e1 hsfsub hs hle1, hle name v1 (by rw [← he]; simp [Env.set])⟩
   | .or alts, t, e, v, e', hsf, h, hle => by
